@@ -323,4 +323,173 @@ theorem C11_worker_spec_fifo (q0 : List Nat) (evs : List WEv) :
 example : wrun [] [.req 1, .req 2, .read 1, .req 3, .read 5] = ([], [[], [], [1], [], [2, 3]]) := by
   decide
 
+/-! ### writer side: when `write_message` refuses -/
+
+/-- Characterisation of the writer, both directions, in every reachable state
+    (any op sequence, forged bytes and hang-up included): `write_message`
+    returns `Ok` exactly when the bytes already pending in the back buffer plus
+    the new frame fit the ceiling `max(max_buffer_size, buffer_size)`, and it
+    returns `MessageTooLarge` (back-pressure, nothing buffered) exactly when
+    they do not. In particular a frame within the ceiling is never refused
+    while nothing is pending, and no other error is possible. -/
+theorem C11_write_refused_iff (dec : Bytes → Bool) (bufferSize maxBufferSize : Nat) (ops : List Op)
+    (p : Bytes) :
+    let w := (run dec (Sys.new bufferSize maxBufferSize) ops).1.w
+    let ceiling := max maxBufferSize bufferSize
+    ((w.writeMessage p).2 = .ok () ↔ w.back.data.length + (p.length + delim) ≤ ceiling) ∧
+    ((w.writeMessage p).2 = .error (.tooLarge (p.length + delim)) ↔
+      ceiling < w.back.data.length + (p.length + delim)) := by
+  have hs := run_sysStep dec (Sys.new bufferSize maxBufferSize) ops (sysWF_new _ _)
+  have hwf := hs.wf (sysWF_new _ _)
+  have hmax : (run dec (Sys.new bufferSize maxBufferSize) ops).1.w.max = max maxBufferSize bufferSize :=
+    hs.w.max_eq
+  have hcap : (run dec (Sys.new bufferSize maxBufferSize) ops).1.w.back.cap ≤
+      (run dec (Sys.new bufferSize maxBufferSize) ops).1.w.max := by
+    have := hs.w.backCap
+    have c2 : (Sys.new bufferSize maxBufferSize).w.back.cap = bufferSize := rfl
+    have e1 : (Sys.new bufferSize maxBufferSize).w.max = max maxBufferSize bufferSize := rfl
+    rw [hmax]; rw [c2, e1] at this; omega
+  have := writeMessage_iff _ p hwf.1 hcap
+  simp only []
+  rw [hmax] at this
+  exact this
+
+-- back-pressure: 158 B pending + 108 B > 200 is refused, the same frame is accepted after a flush
+example : (run (fun _ => true) (Sys.new 100 200)
+    [.write (List.replicate 150 7), .write (List.replicate 100 8), .flush [usizeMax],
+     .write (List.replicate 100 8)]).2 = [.unit, .err (.tooLarge 108), .count 158, .unit] := by
+  decide +kernel
+
+/-! ### equal under a fair schedule -/
+
+/-- Delivery is complete under every fair schedule. `FairSchedule sched rounds`
+    (explicit predicate): `sched` is `rounds` rounds in a row, each of which
+    lets the kernel accept every pending byte of the writer, hands every wire
+    byte to the reader's socket (up to the queue bound), tells the reader it is
+    readable and calls `read_message` at least once. For every configuration
+    (sizes are `usize`s), every decode oracle and every prior op sequence `ops`
+    over round-tripping payloads - any messages of any size (a write that
+    returned `Ok` has a frame within the ceiling by `C11_write_refused_iff`),
+    any accept schedules, any split points, partial reads, `extract_messages`,
+    drains - and every fair continuation `sched`:
+    * at every moment the messages returned so far are a prefix of the messages
+      whose `write_message` returned `Ok`;
+    * once the number of rounds covers the work left (messages written + bytes
+      not yet in the reader's buffer + 1), every message whose write returned
+      `Ok` has been returned by `read_message`, exactly once, in order.
+    Excluded input shapes: forged bytes on the wire (`isRaw`; a forged complete
+    frame with declared length above the ceiling still wedges the reader:
+    `C11_no_wedge_counterexample_oversize`, open finding) and hang-up. -/
+theorem C11_delivery_complete (dec : Bytes → Bool) (bufferSize maxBufferSize : Nat)
+    (hbs : bufferSize ≤ usizeMax) (hms : maxBufferSize ≤ usizeMax)
+    (ops : List Op) (hraw : ∀ op ∈ ops, isRaw op = false) (hclose : Op.close ∉ ops)
+    (hgood : ∀ p, Op.write p ∈ ops → Good dec p)
+    (sched : List Op) (rounds : Nat) (hfair : FairSchedule sched rounds) :
+    let r1 := run dec (Sys.new bufferSize maxBufferSize) ops
+    let r2 := run dec r1.1 sched
+    delivered r1.2 ++ delivered r2.2 <+: written ops r1.2 ∧
+    ((written ops r1.2).length + r1.1.pendingBytes + 1 ≤ rounds →
+      delivered r1.2 ++ delivered r2.2 = written ops r1.2) := by
+  obtain ⟨pend, hreach, hw⟩ := run_reach dec (max maxBufferSize bufferSize) (Sys.new bufferSize maxBufferSize)
+    ops [] (reach_new dec bufferSize maxBufferSize) hraw hclose hgood
+  simp only [List.nil_append] at hw
+  have hlive := reach_live dec _ _ pend hreach (by omega)
+  obtain ⟨ks, hlen, hs⟩ := hfair
+  subst hs
+  obtain ⟨pend', _, he, _, hdone⟩ := live_rounds dec ks _ pend hlive
+  simp only []
+  refine ⟨⟨pend', ?_⟩, ?_⟩
+  · rw [hw, he, List.append_assoc]
+  · intro hle
+    have hpl : pend.length ≤ (written ops (run dec (Sys.new bufferSize maxBufferSize) ops).2).length := by
+      rw [hw]; simp
+    have := hdone (by omega)
+    subst this
+    rw [hw, he, List.append_nil]
+
+example : FairSchedule ((List.replicate 3 1).map fairRoundOps).flatten 3 := ⟨_, rfl, rfl⟩
+
+-- the former F10 witness (100/100, frames of 40 and 70 bytes, 100 bytes at once), then 3 fair rounds
+example : delivered (run (fun _ => true) (Sys.new 100 100)
+    ([.write (List.replicate 32 65), .flush [usizeMax], .write (List.replicate 62 66), .flush [usizeMax],
+      .deliver 100, .readable] ++ ((List.replicate 3 1).map fairRoundOps).flatten)).2
+    = [List.replicate 32 65, List.replicate 62 66] := by
+  decide +kernel
+
+/-- No wedge, in one statement. Take any state whose buffers are in bounds
+    (`SysWF`), writer armed and peer not hung up (`WOk`), ceilings coherent.
+    Let `read_message` return any error `e` there (never a panic: the model's
+    slices are guarded). If the bytes left in flight after that read are
+    well-formed frames `pend` within the ceiling - which is what remains after
+    `MessageLengthUnderDelimiter` (8 bytes dropped) and `InvalidProtobufMessage`
+    (the bad frame dropped), and trivially after `NothingRead` / `BufferFull`;
+    it cannot hold after `MessageTooLarge`, whose prefix stays: the excluded
+    oversize case - then a subsequently written well-formed message `p` is
+    accepted (when it fits beside the pending bytes) and every fair schedule
+    with enough rounds returns exactly `pend ++ [p]`. -/
+theorem C11_no_wedge (dec : Bytes → Bool) (s : Sys) (e : Err)
+    (hwf : SysWF s) (hok : WOk s) (hcap : s.w.back.cap ≤ s.w.max) (hmax : s.r.max = s.w.max)
+    (hM : s.w.max ≤ usizeMax)
+    (hread : (stepBase dec s .read).2 = .err e)
+    (pend : List Bytes) (hrest : (stepBase dec s .read).1.stream = flat pend)
+    (hgood : ∀ q ∈ pend, Good dec q) (hfit : ∀ q ∈ pend, q.length + delim ≤ s.w.max)
+    (p : Bytes) (hp : Good dec p)
+    (hpfit : (stepBase dec s .read).1.w.back.data.length + (p.length + delim) ≤ s.w.max)
+    (sched : List Op) (rounds : Nat) (hfair : FairSchedule sched rounds) :
+    let s1 := (stepBase dec s .read).1
+    let s2 := step dec s1 (.write p)
+    s2.2 = .unit ∧
+    (pend.length + 1 + s2.1.pendingBytes + 1 ≤ rounds →
+      delivered (run dec s2.1 sched).2 = pend ++ [p]) := by
+  have hs1 := stepBase_sysStep dec s .read hwf
+  have hwf1 := hs1.wf hwf
+  have hreach1 : Reach dec s.w.max (stepBase dec s .read).1 pend := by
+    refine ⟨⟨hwf1, hrest, hgood⟩, hfit, stepBase_wok dec s .read hwf hok (by simp), hs1.w.max_eq,
+      hs1.r.max_eq.trans hmax, ?_⟩
+    have := hs1.w.backCap
+    omega
+  obtain ⟨pend', hreach2, he⟩ := step_reach dec s.w.max _ (.write p) pend hreach1 rfl (by simp)
+    (by intro q hq; cases hq; exact hp)
+  have hunit : (step dec (stepBase dec s .read).1 (.write p)).2 = .unit := by
+    have hiff := (writeMessage_iff (stepBase dec s .read).1.w p hwf1.1
+      (by rw [hreach1.wmax]; exact hreach1.wcap)).1
+    have hokw := hiff.mpr (by rw [hreach1.wmax]; exact hpfit)
+    have key : ∀ (x : Sys), (x.w.writeMessage p).2 = .ok () → (stepBase dec x (.write p)).2 = .unit := by
+      intro x hx
+      simp only [stepBase]
+      rcases hr : x.w.writeMessage p with ⟨w1, r1⟩
+      rw [hr] at hx
+      simp only at hx
+      subst hx
+      rfl
+    exact key _ hokw
+  rw [hunit] at he
+  simp only [writtenOf, deliveredOf, List.nil_append] at he
+  subst he
+  have hlive := reach_live dec _ _ _ hreach2 hM
+  obtain ⟨ks, hlen, hsch⟩ := hfair
+  subst hsch
+  obtain ⟨pend'', _, he2, _, hdone⟩ := live_rounds dec ks _ _ hlive
+  simp only []
+  refine ⟨hunit, ?_⟩
+  intro hle
+  have := hdone (by simp only [List.length_append, List.length_singleton]; omega)
+  subst this
+  rw [he2, List.append_nil]
+
+-- the hypotheses are satisfiable after a length-under-8 error ...
+example : let s := (run (fun _ => true) (Sys.new 100 200)
+      [.raw ([5, 0, 0, 0, 0, 0, 0, 0] ++ frame [9, 9]), .deliver 18, .readable]).1
+    (stepBase (fun _ => true) s .read).2 = .err (.under 5) ∧
+    (stepBase (fun _ => true) s .read).1.stream = flat [[9, 9]] := by
+  decide +kernel
+
+-- ... and after an undecodable frame (the former F9 witness)
+example : let dec : Bytes → Bool := fun p => p != List.replicate 10 255
+    let s := (run dec (Sys.new 1000 2000)
+      [.raw (frame (List.replicate 10 255)), .raw (frame [10, 1, 55, 18, 0]), .deliver 31, .readable]).1
+    (stepBase dec s .read).2 = .err .invalid ∧
+    (stepBase dec s .read).1.stream = flat [[10, 1, 55, 18, 0]] := by
+  decide +kernel
+
 end Sozu.Channel
